@@ -285,6 +285,8 @@ func judge(rec *Rec) *verdict {
 				return e.X
 			}
 			return e.X + ".stop"
+		case "count":
+			return "CollectorPool.Count"
 		case "drop":
 			return "proxy.drop"
 		case "stall":
